@@ -26,6 +26,11 @@ class CaseTimeout(BaseException):
     """Raised by the per-case watchdog (SIGALRM)."""
 
 
+class ShardAbort(BaseException):
+    """Raised after too many watchdog firings in one shard: the rest of the shard is abandoned, what was
+    observed so far (including the hang witnesses) is reported."""
+
+
 def h64(obj):
     return int.from_bytes(hashlib.blake2b(repr(obj).encode("utf-8", "backslashreplace"), digest_size=8).digest(), "big")
 
@@ -95,10 +100,12 @@ class Ctx:
             signal.alarm(0)
             self._watchdog = False
 
-    def report_hang(self, case=None):
+    def report_hang(self, case=None, may_abort=True):
         self.hangs += 1
         self.violation("hang", "watchdog", case if case is not None else (self.last_sample or {"note": "case in progress was not sampled"}),
                        expected="library call returns", observed="no progress within %d s" % self.case_timeout)
+        if may_abort and self.hangs >= int(self.spec.get("max_hangs", 2)):
+            raise ShardAbort()
 
     # ------------------------------------------------------------------ rng
     def rng(self, *tag):
